@@ -85,12 +85,19 @@ func entriesFor(alpha string) []*Entry {
 
 // tokenSpaces runs body over every S3 alphabet (strings of tokens joined by one blank).
 // allEntries: feed every string to all nine entry points instead of the alphabet's four.
+// extraLen is added to the alphabets' lengths for checks whose oracle is cheap (C01, C03).
+var extraLen = map[string]int{
+	"C01/expr": 1, "C01/query": 1,
+	"C03/expr": 1, "C03/query": 1,
+}
+
 func tokenSpaces(r *explore.Run, opt explore.Options, allEntries bool, body func(c *explore.Ctx, e *Entry, s string)) {
 	for _, a := range spaces.S3 {
 		k := a.Quick
 		if r.Tier == "thorough" {
 			k = a.Thorough
 		}
+		k += extraLen[r.Property+"/"+a.Name]
 		ents := entriesFor(a.Name)
 		if allEntries {
 			ents = nil
